@@ -12,6 +12,8 @@ mod c01;
 mod c01x;
 mod c02;
 mod c05x;
+mod c06;
+mod c06x;
 mod histprops;
 mod hist;
 mod hrun;
@@ -88,6 +90,7 @@ fn main() {
         "C02" => c02::run(&cfg),
         "C03" => histprops::c03(&cfg),
         "C05" => histprops::c05(&cfg),
+        "C06" => c06::run(&cfg),
         _ => {
             eprintln!("no check for {prop}");
             2
